@@ -1,3 +1,630 @@
-use vcommon::{Args, Value};
-pub fn main(_args: &Args, _threads: usize) -> ! { vcommon::machinery_error("not built yet") }
-pub fn replay(_prop: &str, _case: &Value) -> i32 { 2 }
+//! Engine A, request mode (C12): breadth-first exploration of single builder requests — valid and
+//! invalid — on the real generic and native builders, in lock-step with a boring reference model.
+
+use std::{
+    collections::{BTreeMap, BTreeSet, HashMap, HashSet},
+    panic::{catch_unwind, AssertUnwindSafe},
+    sync::{
+        atomic::{AtomicU64, AtomicUsize, Ordering},
+        Mutex,
+    },
+};
+
+use truc::record::{
+    definition::{
+        builder::{
+            generic::{variant as gvariant, GenericRecordDefinitionBuilder},
+            native::{variant, NativeRecordDefinitionBuilder},
+        },
+        DatumId, RecordVariantId,
+    },
+    type_resolver::HostTypeResolver,
+};
+use vcommon::{json, Args, Report, Tier, Value, Violation};
+
+const NAMES: [&str; 3] = ["a", "b", "c"];
+const NEVER: u8 = 255;
+
+#[derive(Clone, Copy, PartialEq, Eq, Hash, Debug, PartialOrd, Ord)]
+pub enum Req {
+    Add(u8),
+    /// handle = index in issue order; NEVER = an id that was never issued
+    Remove(u8),
+    Close(u8),
+}
+
+impl Req {
+    fn to_json(self) -> Value {
+        match self {
+            Req::Add(n) => json!({"add": NAMES[n as usize]}),
+            Req::Remove(NEVER) => json!({"remove": "never-issued-id"}),
+            Req::Remove(h) => json!({"remove_handle": h}),
+            Req::Close(s) => json!({"close_strategy": s}),
+        }
+    }
+    fn from_json(v: &Value) -> Req {
+        if let Some(n) = v["add"].as_str() {
+            Req::Add(NAMES.iter().position(|x| *x == n).unwrap() as u8)
+        } else if v["remove"].is_string() {
+            Req::Remove(NEVER)
+        } else if let Some(h) = v["remove_handle"].as_u64() {
+            Req::Remove(h as u8)
+        } else {
+            Req::Close(v["close_strategy"].as_u64().unwrap_or(0) as u8)
+        }
+    }
+}
+
+// ---------------------------------------------------------------------------------------
+// reference model (from the property statement)
+// ---------------------------------------------------------------------------------------
+
+#[derive(Clone, Default, Debug, PartialEq, Eq, Hash)]
+struct Model {
+    variants: Vec<BTreeSet<u8>>,
+    pending_add: Vec<u8>,
+    pending_remove: Vec<u8>,
+    /// name index of every issued handle
+    names: Vec<u8>,
+}
+
+#[derive(Debug, PartialEq, Eq, Clone, Copy)]
+enum Verdict {
+    Accepted,
+    Rejected,
+    NewVariant,
+    NoVariant,
+}
+
+impl Model {
+    fn current(&self) -> BTreeSet<u8> {
+        let mut cur: BTreeSet<u8> = self.variants.last().cloned().unwrap_or_default();
+        for r in &self.pending_remove {
+            cur.remove(r);
+        }
+        for a in &self.pending_add {
+            cur.insert(*a);
+        }
+        cur
+    }
+    fn by_name(&self, set: &BTreeSet<u8>, name: u8) -> Option<u8> {
+        set.iter().copied().find(|h| self.names[*h as usize] == name)
+    }
+    fn step(&mut self, r: Req) -> Verdict {
+        match r {
+            Req::Add(n) => {
+                if self.by_name(&self.current(), n).is_some() {
+                    Verdict::Rejected
+                } else {
+                    let h = self.names.len() as u8;
+                    self.names.push(n);
+                    self.pending_add.push(h);
+                    Verdict::Accepted
+                }
+            }
+            Req::Remove(h) => {
+                if h == NEVER || (h as usize) >= self.names.len() {
+                    return Verdict::Rejected;
+                }
+                let in_last = self.variants.last().map_or(false, |v| v.contains(&h));
+                if in_last {
+                    if self.pending_remove.contains(&h) {
+                        Verdict::Rejected
+                    } else {
+                        self.pending_remove.push(h);
+                        Verdict::Accepted
+                    }
+                } else if let Some(p) = self.pending_add.iter().position(|x| *x == h) {
+                    self.pending_add.remove(p);
+                    Verdict::Accepted
+                } else {
+                    Verdict::Rejected
+                }
+            }
+            Req::Close(_) => {
+                // the first close creates the (possibly empty) first variant
+                if self.variants.is_empty() || !self.pending_add.is_empty() || !self.pending_remove.is_empty() {
+                    let v = self.current();
+                    self.variants.push(v);
+                    self.pending_add.clear();
+                    self.pending_remove.clear();
+                    Verdict::NewVariant
+                } else {
+                    Verdict::NoVariant
+                }
+            }
+        }
+    }
+    fn has_pending(&self) -> bool {
+        !self.pending_add.is_empty() || !self.pending_remove.is_empty()
+    }
+}
+
+// ---------------------------------------------------------------------------------------
+// the two real builders behind one interface
+// ---------------------------------------------------------------------------------------
+
+trait Real {
+    fn add(&mut self, name: u8) -> Result<DatumId, String>;
+    fn remove(&mut self, id: DatumId) -> Result<(), String>;
+    fn close(&mut self, strat: u8) -> RecordVariantId;
+    fn current_data(&self) -> Vec<DatumId>;
+    fn current_by_name(&self, name: &str) -> Option<DatumId>;
+    fn variant_by_name(&self, v: RecordVariantId, name: &str) -> Option<DatumId>;
+    fn variant_data(&self, v: RecordVariantId) -> Option<Vec<DatumId>>;
+    fn datum_name(&self, id: DatumId) -> Option<String>;
+    /// build(): Err = panicked; Ok = (variants as lists, name of every datum)
+    fn build(self: Box<Self>) -> Result<(Vec<Vec<DatumId>>, BTreeMap<DatumId, String>), String>;
+}
+
+struct Native(NativeRecordDefinitionBuilder<HostTypeResolver>);
+
+impl Real for Native {
+    fn add(&mut self, name: u8) -> Result<DatumId, String> {
+        match name {
+            0 => self.0.add_datum::<u32, _>("a"),
+            1 => self.0.add_datum_allow_uninit::<u8, _>("b"),
+            _ => self.0.add_datum::<[u8; 3], _>("c"),
+        }
+    }
+    fn remove(&mut self, id: DatumId) -> Result<(), String> {
+        self.0.remove_datum(id)
+    }
+    fn close(&mut self, strat: u8) -> RecordVariantId {
+        if strat == 0 {
+            self.0.close_record_variant()
+        } else {
+            self.0.close_record_variant_with(variant::basic)
+        }
+    }
+    fn current_data(&self) -> Vec<DatumId> {
+        self.0.get_current_data().collect()
+    }
+    fn current_by_name(&self, name: &str) -> Option<DatumId> {
+        self.0.get_current_datum_definition_by_name(name).map(|d| d.id())
+    }
+    fn variant_by_name(&self, v: RecordVariantId, name: &str) -> Option<DatumId> {
+        self.0.get_variant_datum_definition_by_name(v, name).map(|d| d.id())
+    }
+    fn variant_data(&self, v: RecordVariantId) -> Option<Vec<DatumId>> {
+        catch_unwind(AssertUnwindSafe(|| self.0[v].data().collect())).ok()
+    }
+    fn datum_name(&self, id: DatumId) -> Option<String> {
+        catch_unwind(AssertUnwindSafe(|| self.0[id].name().to_owned())).ok()
+    }
+    fn build(self: Box<Self>) -> Result<(Vec<Vec<DatumId>>, BTreeMap<DatumId, String>), String> {
+        catch_unwind(AssertUnwindSafe(move || {
+            let def = self.0.build();
+            (
+                def.variants().map(|v| v.data().collect()).collect(),
+                def.datum_definitions().map(|d| (d.id(), d.name().to_owned())).collect(),
+            )
+        }))
+        .map_err(|p| vcommon::panic_message(&*p))
+    }
+}
+
+struct Generic(GenericRecordDefinitionBuilder<u8>);
+
+impl Real for Generic {
+    fn add(&mut self, name: u8) -> Result<DatumId, String> {
+        self.0.add_datum(NAMES[name as usize], name)
+    }
+    fn remove(&mut self, id: DatumId) -> Result<(), String> {
+        self.0.remove_datum(id)
+    }
+    fn close(&mut self, strat: u8) -> RecordVariantId {
+        if strat == 0 {
+            self.0.close_record_variant_with(gvariant::append_data)
+        } else {
+            self.0.close_record_variant_with(gvariant::append_data_reverse)
+        }
+    }
+    fn current_data(&self) -> Vec<DatumId> {
+        self.0.get_current_data().collect()
+    }
+    fn current_by_name(&self, name: &str) -> Option<DatumId> {
+        self.0.get_current_datum_definition_by_name(name).map(|d| d.id())
+    }
+    fn variant_by_name(&self, v: RecordVariantId, name: &str) -> Option<DatumId> {
+        self.0.get_variant_datum_definition_by_name(v, name).map(|d| d.id())
+    }
+    fn variant_data(&self, v: RecordVariantId) -> Option<Vec<DatumId>> {
+        self.0.get_variant(v).map(|x| x.data().collect())
+    }
+    fn datum_name(&self, id: DatumId) -> Option<String> {
+        self.0.get_datum_definition(id).map(|d| d.name().to_owned())
+    }
+    fn build(self: Box<Self>) -> Result<(Vec<Vec<DatumId>>, BTreeMap<DatumId, String>), String> {
+        catch_unwind(AssertUnwindSafe(move || {
+            let def = self.0.build();
+            (
+                def.variants().map(|v| v.data().collect()).collect(),
+                def.datum_definitions().map(|d| (d.id(), d.name().to_owned())).collect(),
+            )
+        }))
+        .map_err(|p| vcommon::panic_message(&*p))
+    }
+}
+
+fn fresh(kind: u8) -> Box<dyn Real> {
+    if kind == 0 {
+        Box::new(Native(NativeRecordDefinitionBuilder::new(HostTypeResolver)))
+    } else {
+        Box::new(Generic(GenericRecordDefinitionBuilder::new()))
+    }
+}
+
+const KINDS: [&str; 2] = ["native", "generic"];
+
+// ---------------------------------------------------------------------------------------
+// lock-step execution
+// ---------------------------------------------------------------------------------------
+
+struct Run {
+    real: Box<dyn Real>,
+    model: Model,
+    ids: Vec<DatumId>,
+    vids: Vec<RecordVariantId>,
+}
+
+fn case_json(kind: u8, h: &[Req]) -> Value {
+    json!({"space": "request-history", "builder": KINDS[kind as usize], "requests": h.iter().map(|r| r.to_json()).collect::<Vec<_>>()})
+}
+
+/// Compares every observation of the real builder with the model. Returns a violation text.
+fn compare(run: &Run) -> Option<(String, String)> {
+    let m = &run.model;
+    let id_of = |h: u8| run.ids[h as usize];
+    let handle_of = |id: DatumId| run.ids.iter().position(|x| *x == id).map(|p| p as u8);
+    // current data
+    let got: Vec<DatumId> = run.real.current_data();
+    let got_set: BTreeSet<DatumId> = got.iter().copied().collect();
+    let want_set: BTreeSet<DatumId> = m.current().into_iter().map(id_of).collect();
+    if got_set != want_set || got_set.len() != got.len() {
+        return Some(("current-data".into(), format!("get_current_data() = {:?}, the model's current variant is {:?}", got, want_set)));
+    }
+    // names unique within the current variant
+    let mut seen = BTreeSet::new();
+    for id in &got {
+        let n = run.real.datum_name(*id);
+        if !seen.insert(n.clone()) {
+            return Some(("duplicate-name".into(), format!("name {:?} appears twice in the current variant", n)));
+        }
+    }
+    for (ni, name) in NAMES.iter().enumerate() {
+        let want = m.by_name(&m.current(), ni as u8).map(id_of);
+        let got = run.real.current_by_name(name);
+        if got != want {
+            return Some(("current-by-name".into(), format!("lookup of {:?} in the current variant gives {:?}, expected {:?}", name, got, want)));
+        }
+    }
+    if run.vids.len() != m.variants.len() {
+        return Some(("variant-count".into(), format!("{} variants were created, the model has {}", run.vids.len(), m.variants.len())));
+    }
+    let distinct: BTreeSet<_> = run.vids.iter().collect();
+    if distinct.len() != run.vids.len() {
+        return Some(("variant-id-reused".into(), format!("variant ids {:?} are not distinct", run.vids)));
+    }
+    for (vi, vid) in run.vids.iter().enumerate() {
+        let data = match run.real.variant_data(*vid) {
+            Some(d) => d,
+            None => return Some(("variant-missing".into(), format!("closed variant {} cannot be looked up", vid))),
+        };
+        let got: BTreeSet<DatumId> = data.iter().copied().collect();
+        let want: BTreeSet<DatumId> = m.variants[vi].iter().map(|h| id_of(*h)).collect();
+        if got != want || got.len() != data.len() {
+            return Some(("variant-membership".into(), format!("variant {} holds {:?}, expected previous - removed + added = {:?}", vid, data, want)));
+        }
+        for (ni, name) in NAMES.iter().enumerate() {
+            let want = m.by_name(&m.variants[vi], ni as u8).map(id_of);
+            let got = run.real.variant_by_name(*vid, name);
+            if got != want {
+                return Some(("variant-by-name".into(), format!("lookup of {:?} in variant {} gives {:?}, expected {:?}", name, vid, got, want)));
+            }
+        }
+        if data.iter().any(|d| handle_of(*d).is_none()) {
+            return Some(("unknown-datum".into(), format!("variant {} holds a datum id that was never issued: {:?}", vid, data)));
+        }
+    }
+    // no variant beyond the created ones
+    let next = RecordVariantId::from(run.vids.len());
+    if !run.vids.contains(&next) && run.real.variant_data(next).is_some() {
+        return Some(("extra-variant".into(), format!("a variant {} exists that no close reported", next)));
+    }
+    None
+}
+
+/// Applies one request to both sides. Returns a violation (key suffix, text) if they disagree.
+fn apply(run: &mut Run, r: Req) -> Option<(String, String)> {
+    let verdict = run.model.step(r);
+    match r {
+        Req::Add(n) => {
+            let res = run.real.add(n);
+            match (res, verdict) {
+                (Ok(id), Verdict::Accepted) => {
+                    if run.ids.contains(&id) {
+                        return Some(("id-reused".into(), format!("datum id {} was issued twice", id)));
+                    }
+                    run.ids.push(id);
+                }
+                (Err(_), Verdict::Rejected) => {}
+                (Ok(id), _) => {
+                    return Some(("invalid-add-accepted".into(), format!("adding a second {:?} to the current variant was accepted (id {})", NAMES[n as usize], id)));
+                }
+                (Err(e), _) => {
+                    return Some(("valid-add-rejected".into(), format!("adding {:?} was rejected although the name is free: {}", NAMES[n as usize], e)));
+                }
+            }
+        }
+        Req::Remove(h) => {
+            let id = if h == NEVER || (h as usize) >= run.ids.len() {
+                // an id that was never issued
+                DatumId::from(run.ids.len() + 7)
+            } else {
+                run.ids[h as usize]
+            };
+            let res = run.real.remove(id);
+            match (res, verdict) {
+                (Ok(()), Verdict::Accepted) | (Err(_), Verdict::Rejected) => {}
+                (Ok(()), _) => {
+                    return Some(("invalid-remove-accepted".into(), format!("removing datum {} (absent, stale, unknown or already removed) was accepted", id)));
+                }
+                (Err(e), _) => {
+                    return Some(("valid-remove-rejected".into(), format!("removing live datum {} was rejected: {}", id, e)));
+                }
+            }
+        }
+        Req::Close(s) => {
+            let vid = match catch_unwind(AssertUnwindSafe(|| run.real.close(s))) {
+                Ok(v) => v,
+                Err(p) => return Some(("close-panicked".into(), vcommon::panic_message(&*p))),
+            };
+            match verdict {
+                Verdict::NewVariant => {
+                    if run.vids.contains(&vid) {
+                        return Some(("close-created-no-variant".into(), format!("a close with pending changes returned the existing variant {}", vid)));
+                    }
+                    run.vids.push(vid);
+                }
+                _ => {
+                    // no pending change: no new variant; the returned id is not constrained
+                    // beyond being an existing one (checked by compare through variant count)
+                    if !run.vids.contains(&vid) {
+                        // a new id means a new variant was created
+                        if run.real.variant_data(vid).is_some() {
+                            return Some(("noop-close-created-variant".into(), format!("closing with no pending change created variant {}", vid)));
+                        }
+                    }
+                }
+            }
+        }
+    }
+    compare(run)
+}
+
+fn replay_history(kind: u8, h: &[Req]) -> (Run, Option<(usize, String, String)>) {
+    let mut run = Run {
+        real: fresh(kind),
+        model: Model::default(),
+        ids: vec![],
+        vids: vec![],
+    };
+    for (i, r) in h.iter().enumerate() {
+        if let Some((k, t)) = apply(&mut run, *r) {
+            return (run, Some((i, k, t)));
+        }
+    }
+    (run, None)
+}
+
+fn check_build(kind: u8, h: &[Req]) -> Option<(String, String)> {
+    let (run, bad) = replay_history(kind, h);
+    if bad.is_some() {
+        return None;
+    }
+    let pending = run.model.has_pending();
+    let model = run.model.clone();
+    let ids = run.ids.clone();
+    match (run.real.build(), pending) {
+        (Ok(_), true) => Some(("build-with-pending-accepted".into(), "build() succeeded although changes were not closed".into())),
+        (Err(e), false) => Some(("build-panicked".into(), format!("build() panicked on a builder without pending changes: {}", e))),
+        (Err(_), true) => None,
+        (Ok((variants, names)), false) => {
+            if variants.len() != model.variants.len() {
+                return Some(("built-variant-count".into(), format!("built definition has {} variants, expected {}", variants.len(), model.variants.len())));
+            }
+            for (vi, v) in variants.iter().enumerate() {
+                let got: BTreeSet<DatumId> = v.iter().copied().collect();
+                let want: BTreeSet<DatumId> = model.variants[vi].iter().map(|h| ids[*h as usize]).collect();
+                if got != want || got.len() != v.len() {
+                    return Some(("built-variant-membership".into(), format!("built variant {} holds {:?}, expected {:?}", vi, v, want)));
+                }
+            }
+            for (h, id) in ids.iter().enumerate() {
+                if names.get(id).map(String::as_str) != Some(NAMES[model.names[h] as usize]) {
+                    return Some(("built-datum-name".into(), format!("datum {} is named {:?} in the built definition", id, names.get(id))));
+                }
+            }
+            None
+        }
+    }
+}
+
+type Key = Vec<u8>;
+
+fn key_of(run: &Run) -> Key {
+    // the model state, with the real list order of every variant (finer than the model's sets)
+    let mut k = vec![];
+    for vid in &run.vids {
+        k.push(0xFE);
+        for id in run.real.variant_data(*vid).unwrap_or_default() {
+            k.push(run.ids.iter().position(|x| *x == id).map(|p| p as u8).unwrap_or(0xFD));
+        }
+    }
+    k.push(0xFF);
+    k.extend(&run.model.pending_add);
+    k.push(0xFF);
+    k.extend(&run.model.pending_remove);
+    k.push(0xFF);
+    k.extend(&run.model.names);
+    k
+}
+
+pub struct RequestRun {
+    pub states: u64,
+    pub transitions: u64,
+    pub levels: Vec<Value>,
+    pub violations: BTreeMap<String, Violation>,
+    pub violating: u64,
+    pub samples: Vec<Value>,
+}
+
+fn explore(kind: u8, depth: usize, threads: usize) -> RequestRun {
+    let mut out = RequestRun { states: 1, transitions: 0, levels: vec![], violations: BTreeMap::new(), violating: 0, samples: vec![] };
+    let seen: Mutex<HashSet<Key>> = Mutex::new(HashSet::new());
+    let mut frontier: Vec<Vec<Req>> = vec![vec![]];
+    for level in 0..depth {
+        let level_new: Mutex<HashMap<Key, Vec<Req>>> = Mutex::new(HashMap::new());
+        let viol: Mutex<BTreeMap<String, Violation>> = Mutex::new(BTreeMap::new());
+        let cursor = AtomicUsize::new(0);
+        let transitions = AtomicU64::new(0);
+        let violating = AtomicU64::new(0);
+        std::thread::scope(|s| {
+            for _ in 0..threads.max(1) {
+                s.spawn(|| loop {
+                    let i = cursor.fetch_add(1, Ordering::Relaxed);
+                    if i >= frontier.len() {
+                        break;
+                    }
+                    let hist = &frontier[i];
+                    let issued = hist.iter().filter(|r| matches!(r, Req::Add(_))).count();
+                    let mut reqs: Vec<Req> = (0..3).map(Req::Add).collect();
+                    // handles: at most `issued` were really issued (rejected adds issue nothing)
+                    for h in 0..issued.min(250) {
+                        reqs.push(Req::Remove(h as u8));
+                    }
+                    reqs.push(Req::Remove(NEVER));
+                    reqs.push(Req::Close(0));
+                    reqs.push(Req::Close(1));
+                    for r in reqs {
+                        let mut h2 = hist.clone();
+                        h2.push(r);
+                        let (run, bad) = replay_history(kind, &h2);
+                        if let Req::Remove(h) = r {
+                            if h != NEVER && (h as usize) >= run.ids.len() && bad.is_none() {
+                                // same as the never-issued id: already covered
+                                continue;
+                            }
+                        }
+                        transitions.fetch_add(1, Ordering::Relaxed);
+                        let bad = bad
+                            .map(|(_, k, t)| (k, t))
+                            .or_else(|| check_build(kind, &h2));
+                        if let Some((k, t)) = bad {
+                            violating.fetch_add(1, Ordering::Relaxed);
+                            let key = format!("C12/{}/{}", k, KINDS[kind as usize]);
+                            let mut g = viol.lock().unwrap();
+                            g.entry(key.clone()).or_insert_with(|| Violation::new(key, format!("after {:?}: {}", h2, t), case_json(kind, &h2)));
+                            continue;
+                        }
+                        let key = key_of(&run);
+                        if seen.lock().unwrap().contains(&key) {
+                            continue;
+                        }
+                        let mut g = level_new.lock().unwrap();
+                        match g.get_mut(&key) {
+                            None => {
+                                g.insert(key, h2);
+                            }
+                            Some(old) => {
+                                if h2 < *old {
+                                    *old = h2;
+                                }
+                            }
+                        }
+                    }
+                });
+            }
+        });
+        let new = level_new.into_inner().unwrap();
+        let t = transitions.load(Ordering::Relaxed);
+        out.transitions += t;
+        out.states += new.len() as u64;
+        out.violating += violating.load(Ordering::Relaxed);
+        out.levels.push(json!({"depth": level + 1, "frontier": frontier.len(), "transitions": t, "new_states": new.len(), "violating": violating.load(Ordering::Relaxed)}));
+        for (k, v) in viol.into_inner().unwrap() {
+            out.violations.entry(k).or_insert(v);
+        }
+        let mut s = seen.lock().unwrap();
+        frontier = Vec::with_capacity(new.len());
+        for (k, h) in new {
+            s.insert(k);
+            frontier.push(h);
+        }
+        frontier.sort();
+        if let Some(h) = frontier.get(frontier.len() / 3) {
+            if out.samples.len() < 3 {
+                out.samples.push(case_json(kind, h));
+            }
+        }
+    }
+    out
+}
+
+pub fn main(args: &Args, threads: usize) -> ! {
+    let depth = if args.tier == Tier::Quick { 9 } else { 12 };
+    let mut report = Report::new("hist", args, "model_checking");
+    let mut states = 0;
+    let mut transitions = 0;
+    let mut per = vec![];
+    let mut samples = vec![];
+    for kind in 0..2u8 {
+        let r = explore(kind, depth, threads);
+        eprintln!("C12 request mode, {} builder: depth {} states {} transitions {} violating {}", KINDS[kind as usize], depth, r.states, r.transitions, r.violating);
+        states += r.states;
+        transitions += r.transitions;
+        per.push(json!({"builder": KINDS[kind as usize], "depth": depth, "states": r.states, "transitions": r.transitions, "violating_transitions": r.violating, "levels": r.levels}));
+        samples.extend(r.samples);
+        report.violations_total += r.violating;
+        for (_, v) in r.violations {
+            report.violations.push(v);
+        }
+    }
+    // membership half in layout mode, where the shapes (hence the strategies' work) vary
+    let l = crate::run_layout("C12L", args.tier, threads, Some(std::time::Duration::from_secs(if args.tier == Tier::Quick { 600 } else { 1200 })));
+    report.violations_total += l.violating_transitions;
+    for v in l.violations {
+        report.violations.push(v);
+    }
+    samples.extend(l.samples.into_iter().take(2));
+    report
+        .cov("states", states + l.states)
+        .cov("transitions", transitions + l.transitions)
+        .cov("traces_validated_against_impl", transitions + l.transitions)
+        .cov("samples", samples)
+        .cov("exhaustive", l.complete)
+        .cov("request_mode", per)
+        .cov("layout_mode_membership", json!({"states": l.states, "transitions": l.transitions, "complete": l.complete, "passes": l.passes}))
+        .cov("explanation", "request mode: BFS over single requests {add a|b|c, remove <every issued handle | never-issued id>, close with two strategies}, every request applied to the real builder and to the reference model, all observations (current data, by-name lookups in the current and in every closed variant, variant count and membership, build()) compared after every request; key = real variant lists + ordered pending lists + names. layout mode: membership oracle on every whole-variant transition of the layout exploration");
+    report.assume("the first close of a builder creates the (possibly empty) first variant; the id returned by a no-op close is not constrained");
+    report.assume("three names, two closing strategies per builder in request mode");
+    std::process::exit(report.finish());
+}
+
+pub fn replay(prop: &str, case: &Value) -> i32 {
+    let kind = if case["builder"].as_str() == Some("generic") { 1 } else { 0 };
+    let h: Vec<Req> = case["requests"].as_array().map(|a| a.iter().map(Req::from_json).collect()).unwrap_or_default();
+    let (_, bad) = replay_history(kind, &h);
+    let bad = bad.map(|(_, k, t)| (k, t)).or_else(|| check_build(kind, &h));
+    match bad {
+        Some((k, t)) => {
+            println!("REPLAY-VIOLATION property={} key=C12/{}/{} :: {}", prop, k, KINDS[kind as usize], t);
+            1
+        }
+        None => {
+            println!("REPLAY-OK property={}", prop);
+            0
+        }
+    }
+}
